@@ -502,7 +502,7 @@ V("C13-b1", "C13", (FRAME, "assign_if_none(self.index_min, index_data.min())", "
 V("C13-b2", "C13", (FRAME, "assign_if_none(self.index_max, index_data.shape[0])", "assign_if_none(self.index_max, index_data.size)"),
   "R13.4", "row count replaced by element count")
 V("C13-b3", "C13", (FRAME, "            direction = True  # all non-negative", "            direction = False  # all non-negative"),
-  "R13.4", "direction sense inverted in the helper")
+  ["R13.4", "R13.7"], "direction sense inverted in the helper")
 V("C13-b4", "C13", (FRAME, "'INCREASING' if direction > 0 else 'DECREASING'", "'DECREASING' if direction > 0 else 'INCREASING'"),
   "R13.4", "direction names swapped")
 V("C13-b5", "C13", (FRAME, "        index_data = data[index_channel.name][:]", "        index_data = data._data_source[index_channel.dataset_name][:]"),
@@ -580,3 +580,28 @@ V("C12-b1", "C12", (SDW, "            ReprCodeConverter.validate_numpy_dtype(num
 V("C12-b2", "C12", (SDW, "                if dset_row0.ndim > 2:\n                    raise RuntimeError(\"Data sets with more than 2 dimensions are not supported\")\n", ""),
   "R12.2", "3-D data accepted")
 V("C12-b3", "C12", (FILE, "        if not self.channels:\n            raise RuntimeError", "        if False:\n            raise RuntimeError"), "R12.1", "no channels accepted")
+
+
+# ---------------------------------------------------------------------------------------------- round 6 additions
+V("C09-r6b1", "C09", (ESET, "        return self._eflr_item_list[:]  # copy", "        return iter(self._eflr_item_list)"), "R09.3",
+  "the empty-set guard tests an iterator object (always true)")
+V("C09-r6t1", "C09", (ESET, "        return self._eflr_item_list[:]  # copy", "        return list(self._eflr_item_list)"), "silent",
+  "copy spelt list(...)")
+V("C03-r6b1", "C03", (FILE, "            self._data_dict[ch.dataset_name] = data\n", "            self._data_dict[ch.dataset_name] = data if cast_dtype is None else data.astype(cast_dtype)\n"),
+  "R03.10", "data converted with the cast declared at add time")
+V("C03-r6t1", "C03", (FILE, "            self._data_dict[ch.dataset_name] = data\n", "            kept = data\n            self._data_dict[ch.dataset_name] = kept\n"),
+  "silent", "data kept through a local")
+V("C17-r6b1", "C17", (VE, "            if not isinstance(v, str):\n                raise TypeError", "            if isinstance(v, str) and v in [m.name for m in cls]:\n                return v\n            if not isinstance(v, str):\n                raise TypeError"),
+  "R17.7", "member names accepted as texts")
+V("C17-r6t1", "C17", (VE, "            if not isinstance(v, str):\n                raise TypeError", "            if not isinstance(v, str) or v in ():\n                raise TypeError"),
+  "silent", "vacuous extra membership test")
+V("C13-r6b1", "C13", (FRAME, "        elif (diff_unique >= 0).all():", "        elif (diff_unique > 0).all():"), "R13.7",
+  "a plateau in an increasing index loses the direction")
+V("C13-r6b2", "C13", (FRAME, "        elif (diff_unique <= 0).all():", "        elif diff_unique[0] < 0:"), "R13.7",
+  "smallest step negative taken for decreasing (mixed steps included)")
+V("C13-r6t1", "C13", (FRAME, "        elif (diff_unique >= 0).all():", "        elif diff_unique.min() >= 0:"), "silent",
+  "smallest step instead of all steps")
+V("C13-r6t2", "C13", (FRAME, "        elif (diff_unique <= 0).all():", "        elif np.all(diff <= 0):"), "silent",
+  "np.all over the raw differences")
+V("C13-r6t3", "C13", (FRAME, "        elif (diff_unique <= 0).all():", "        elif not (diff_unique > 0).any():"), "silent",
+  "no positive step")
